@@ -89,6 +89,23 @@ CHECKS = {
    design_ref='DESIGN.md section 6 (C20)',
    note='Trusted: TLC, recorder, fakepg. Engine configured without a first function. One known finding (blocked request renders after a failed terminating request).',
    technique='TLA+ spec + TLC model checking + request-level trace validation in persisted mode'),
+ 'C01': dict(
+   category='model_checking',
+   text='Render.tla transcribes the sizing/pagination algorithm and states the contract; TLC checks Fits exhaustively on the algorithm model over all configurations '
+        'of the bound (sizes x row-length sequences x template x menu x browse) and emits every configuration; each is rendered by the real render.Page at every page index '
+        'and TLC evaluates C01_Fits / NoSilentTruncation on the real outputs; at engine level every Flush of recorded sessions over programs with an output size is checked '
+        '(paged sinks, error prefix, exit value).',
+   design_ref='DESIGN.md section 6 (C01)',
+   note='Trusted: TLC, the recorder that measures the real output. Bounded: configuration space of the exhaustive part; random larger configurations are sampling. One known finding (exit value appended after the size check).',
+   technique='TLA+ spec (Render.tla) + TLC exhaustive enumeration + contract evaluation on real renders and real Flush outputs'),
+ 'C02': dict(
+   category='model_checking',
+   text='The contract of C02 (Partition, StaticEverywhere, NavOffered, OfferedRenders, PastEndIsError, NoPanic) is stated over the family of pages of one configuration; TLC '
+        'enumerates all configurations of the bound, checks the clauses the algorithm model satisfies, and every configuration is rendered by the real code for every page '
+        'index from 0 to beyond the end; TLC evaluates the contract on the real page families and compares the real grouping with the algorithm transcription.',
+   design_ref='DESIGN.md section 6 (C02)',
+   note='Trusted: TLC, the recorder\'s parsing of a page into static text / sink lines / menu lines. Two known findings (empty row at a page start dropped; next into an oversize page) are excused only where the real family equals the pinned algorithm transcription.',
+   technique='TLA+ spec + TLC exhaustive enumeration + contract evaluation on real page families'),
 }
 
 NOT_YET = 'check not built yet in this round (planned: DESIGN.md section 6); not claimed until its machinery exists'
